@@ -2,6 +2,9 @@
 call of the implementation under test (imported from /repo's working tree),
 projects the outcome to JSON and fills the oracle table from refprims.  The
 same functions re-execute an event from a replay file."""
+import json
+import os
+
 from . import refprims as R
 from .core import B, T, untext
 
@@ -354,6 +357,12 @@ def _ckd_event(inp, tab, ev):
         ok, v = call(par.ckd, i)
     ev["q"] = queries_json(tap)
     ev["par_after"] = {"node": node_json(par), "nch": len(par.children) - (1 if ok else 0)}
+    if inp.get("drop"):
+        # the caller keeps ONLY the child (e.g. PrvKeyNode.parse(xprv).ckd(i)): the parent object is gone
+        # before anything is printed for the child
+        import gc
+        del par
+        gc.collect()
     ev["res"] = res_of(ok, v, node_view)
 
 
@@ -380,6 +389,10 @@ def DerivePath(inp, tab, ev):
     with PrfTap(prf) as tap:
         ok, v = call(root.derive_path, path)
     ev["q"] = []
+    if inp.get("drop"):
+        import gc
+        del root                      # only the node that was asked for is kept by the caller
+        gc.collect()
     ev["res"] = res_of(ok, v, node_view)
 
 
@@ -1098,10 +1111,45 @@ def Paranoia(inp, tab, ev):
     from btc_hd_wallet.__main__ import paranoia_mode
     from btc_hd_wallet.bip39_wordlist import word_list
 
+    def cli_filtered():
+        """the same request through the command line: --paranoia ... printed to stdout, or saved with --file"""
+        import json as _json
+        import shutil
+        import tempfile
+        from . import clirun
+        st, en = _iv(inp)
+        args = ["--paranoia"] + (["--testnet"] if inp["net"] == "test" else []) + ["--account", str(inp["account"]),
+                                                                                   "--interval", str(st), str(en)]
+        if inp["via"] == "cli-file":
+            args = ["--file", "out.json"] + args
+        if inp.get("seed") is not None:
+            args += ["from-bip39-seed", bytes(inp["seed"]).hex()]
+        else:
+            args += ["from-mnemonic", untext(inp["mnemonic"]), "--password", untext(inp["password"])]
+        d = tempfile.mkdtemp(prefix="par.", dir="/dev/shm" if os.path.isdir("/dev/shm") else None)
+        try:
+            code, out, err, opened = clirun.run_inprocess(args, d)
+            if code != 0:
+                raise RuntimeError("command line refused the request (exit %r): %s" % (code, err[-200:]))
+            text = out
+            if inp["via"] == "cli-file":
+                with open(os.path.join(d, "out.json")) as f:
+                    text = f.read()
+            try:
+                return _json.loads(text)
+            except ValueError:
+                return {"raw": text}           # not JSON: judged as one string
+        finally:
+            shutil.rmtree(d, ignore_errors=True)
+
     def go():
         w = _paper_wallet(inp)
         data = w.generate(account=inp["account"], interval=_iv(inp))
-        filt = paranoia_mode(data=data)
+        if inp.get("via", "api") != "api":
+            data = json.loads(json.dumps(data))
+            filt = cli_filtered()
+        else:
+            filt = paranoia_mode(data=data)
         full_l = tree_leaves(data)
         filt_l = tree_leaves(filt)
         ev["full"] = [{"ptr": T(p), "role": leaf_role(p), "s": T(s)} for p, s in full_l]
